@@ -433,6 +433,25 @@ def _check_state(sc, b, typ, link, fs2, model, victim, history, i, torn, n, jour
                     BP.validate_tree(fs2.tree(copy=False), b['version'])
                 except BP.Invalid as ex:
                     return {'sig': 'C06:invalid-bundle-after-restart-store:%s' % name, 'msg': '%s: %s' % (where, ex)}
+        # ... and a remove of the victim address (tile caches only)
+        if typ in ('file', 'compact'):
+            try:
+                Store(b).remove(k0)
+                got = Store(b).load(k0)
+            except Exception as ex:
+                return {'sig': 'C06:remove-after-restart-raises:%s:%s' % (type(ex).__name__, name),
+                        'msg': '%s: removing %r after restart raised %r' % (where, k0, ex)}
+            if got is not None:
+                return {'sig': 'C06:remove-after-restart-ineffective:%s' % name,
+                        'msg': '%s: %r still returns %s after it was removed' % (where, k0, C.describe(got))}
+            for k in sc['pool']:
+                if _key(k) == _key(k0):
+                    continue
+                got = Store(b).load(k)
+                if got != observed[_key(k)]:
+                    return {'sig': 'C06:store-after-restart-damages-other-tile:%s' % name,
+                            'msg': '%s: after restart removing %r changed what %r returns: %s -> %s' % (
+                                where, k0, k, C.describe(observed[_key(k)]), C.describe(got))}
     return None
 
 
